@@ -12,12 +12,14 @@ import (
 	"verifharness/hx"
 )
 
+var c02TsBase int64 = 100
+
 // c02Event draws an event with a rich tag shape over small pools.
 func c02Event(t *rapid.T, label string, authors []string) *mocrelay.Event {
 	e := &mocrelay.Event{}
 	e.Pubkey = rapid.SampledFrom(authors).Draw(t, label+"pk")
 	e.Kind = rapid.SampledFrom([]int64{0, 1, 1, 5, 7, 10000, 20000, 30000}).Draw(t, label+"kind")
-	e.CreatedAt = rapid.Int64Range(100, 106).Draw(t, label+"ts")
+	e.CreatedAt = c02TsBase + rapid.Int64Range(0, 6).Draw(t, label+"ts")
 	n := rapid.IntRange(0, 5).Draw(t, label+"ntags")
 	e.Tags = []mocrelay.Tag{}
 	for i := 0; i < n; i++ {
@@ -82,6 +84,8 @@ func TestC02Match(t *testing.T) {
 	col := ev.For("C02").SetRule("cases = (4 generated events over small pools) x (1-3 generated filters), each pair checked against the naive NIP-01 predicate, plus the list matcher and a LimitMatch/Done sequence of 0-12 events against per-filter model counters; non-trivial = some (event, filter) pair where the filter has >=2 present conditions and the event fails at most one of them (the decision hinges on one condition), or Done() flips during the sequence; distinct by hash of the rendered case")
 	authors := gen.Pubkeys(3)
 	rapid.Check(t, func(t *rapid.T) {
+		// timestamps around 100, or around 0 (boundary: since/until 0, negative created_at)
+		c02TsBase = rapid.SampledFrom([]int64{100, 100, -2, 0}).Draw(t, "tsbase")
 		evs := make([]*mocrelay.Event, 4)
 		for i := range evs {
 			evs[i] = c02Event(t, fmt.Sprintf("e%d.", i), authors)
